@@ -3,12 +3,17 @@
 use crate::common::*;
 use cteepbd::*;
 
-const MIXES: [&str; 12] = ["elpv", "hp", "hppv", "st", "red1", "bio", "bionrb", "biored1", "bioout", "nodem", "zerodem", "biogas"];
+const MIXES: [&str; 15] = ["elpv", "hp", "hppv", "st", "red1", "bio", "bionrb", "biored1", "bioout", "nodem", "zerodem", "biogas", "bioout2", "elpvaux", "hppvaux"];
 
 pub fn units(tier: &str, _seed: u64) -> Vec<String> {
     let mut v = vec![];
     for m in MIXES {
-        v.push(unit(&[("mix", m), ("n", "1"), ("extra", "none")]));
+        if m.ends_with("aux") {
+            // closed forms with a cancellation (1 - aux / use): beyond the solver, kept for what they refute
+            v.push(unit(&[("mix", m), ("n", "1"), ("extra", "none"), ("bud", "60")]));
+        } else {
+            v.push(unit(&[("mix", m), ("n", "1"), ("extra", "none")]));
+        }
     }
     // invariance: non-EPB use, other services' non-electric use
     for m in ["elpv", "hp", "st", "bionrb"] {
@@ -33,7 +38,17 @@ pub fn units(tier: &str, _seed: u64) -> Vec<String> {
 /// the building of a mix: (components text, closed form of the fraction or None when an error is expected)
 fn build(mix: &str, n: usize, extra: &str) -> (String, Option<F>) {
     let sc = if extra == "scaled" { k(4.0) } else { k(1.0) };
-    let e = |nm: &str, t: usize| sc * input(&format!("{}_{}", nm, t), Dom::EnergyPos);
+    // with auxiliaries the non-auxiliary share is computed as 1 - aux / use: its rounding error grows with aux / use,
+    // so those mixes keep the auxiliaries below the consumption they serve (stated bound)
+    let aux_mix = mix.ends_with("aux");
+    let e = |nm: &str, t: usize| {
+        let dom = match nm {
+            "ax" if aux_mix => Dom::Range(0.01, 50.0),
+            "el" if aux_mix => Dom::Range(50.0, 1.0e4),
+            _ => Dom::EnergyPos,
+        };
+        sc * input(&format!("{}_{}", nm, t), dom)
+    };
     let sum = |nm: &str| -> F { <F as Scalar>::sum((0..n).map(|t| e(nm, t))) };
     let row = |nm: &str| -> String { (0..n).map(|t| format!("{}", e(nm, t))).collect::<Vec<_>>().join(", ") };
     let rowf = |f: &dyn Fn(usize) -> F| -> String { (0..n).map(|t| format!("{}", f(t))).collect::<Vec<_>>().join(", ") };
@@ -100,6 +115,34 @@ fn build(mix: &str, n: usize, extra: &str) -> (String, Option<F>) {
             let dem = <F as Scalar>::sum((0..n).map(|t| k(0.8) * e("bm", t) + k(0.9) * e("gn", t)));
             let outp = <F as Scalar>::sum((0..n).map(|t| k(0.8) * e("bm", t)));
             Some(outp * fbio / dem)
+        }
+        // the same boiler with its biomass consumption declared in two lines
+        "bioout2" => {
+            s.push_str(&format!(
+                "3, CONSUMO, ACS, BIOMASA, {}\n3, CONSUMO, ACS, BIOMASA, {}\n3, SALIDA, ACS, {}\nCONSUMO, ACS, GASNATURAL, {}\nDEMANDA, ACS, {}\n",
+                row("bm"),
+                row("b2"),
+                rowf(&|t| k(0.8) * (e("bm", t) + e("b2", t))),
+                row("gn"),
+                rowf(&|t| k(0.8) * (e("bm", t) + e("b2", t)) + k(0.9) * e("gn", t))
+            ));
+            let dem = <F as Scalar>::sum((0..n).map(|t| k(0.8) * (e("bm", t) + e("b2", t)) + k(0.9) * e("gn", t)));
+            let outp = <F as Scalar>::sum((0..n).map(|t| k(0.8) * (e("bm", t) + e("b2", t))));
+            Some(outp * fbio / dem)
+        }
+        // direct electric heating / heat pump with auxiliaries + PV: the photovoltaic electricity that feeds the
+        // auxiliaries does not count; the renewable part is the PV used on site times the non-auxiliary share
+        "elpvaux" | "hppvaux" => {
+            let hp = mix == "hppvaux";
+            s.push_str(&format!("1, CONSUMO, ACS, ELECTRICIDAD, {}\n1, AUX, {}\nPRODUCCION, EL_INSITU, {}\n", row("el"), row("ax"), row("pv")));
+            if hp {
+                s.push_str(&format!("1, CONSUMO, ACS, EAMBIENTE, {}\n", row("ma")));
+            }
+            s.push_str(&format!("DEMANDA, ACS, {}\n", rowf(&|t| if hp { e("el", t) + e("ma", t) } else { e("el", t) })));
+            let dem = <F as Scalar>::sum((0..n).map(|t| if hp { e("el", t) + e("ma", t) } else { e("el", t) }));
+            let used = <F as Scalar>::sum((0..n).map(|t| (e("el", t) + e("ax", t)).min_(e("pv", t))));
+            let share = sum("el") / <F as Scalar>::sum((0..n).map(|t| e("el", t) + e("ax", t)));
+            Some(((if hp { sum("ma") } else { k(0.0) }) + used * share) / dem)
         }
         // not computable: no demand, zero demand, biomass + non-nearby carrier without declared output
         "nodem" => {
